@@ -20,6 +20,7 @@ from ..core import AnalysisError
 from ..core import RuleResult
 from ..core import norm
 from ..flow import ANY
+from ..flow import NORMAL
 from ..flow import BaseState
 from ..flow import Domain
 from ..flow import Interp
@@ -966,8 +967,186 @@ def _inl(rule):
     return run
 
 
+class _ES(BaseState):
+    __slots__ = ('eq', 'trace', 'cur_exc')
+
+    def __init__(self, eq=None):
+        self.eq = eq
+        self.trace = ()
+        self.cur_exc = None
+
+    def key(self):
+        return self.eq
+
+    def copy(self):
+        n = _ES(self.eq)
+        n.trace = self.trace
+        return n
+
+
+class _SameKey(Domain):
+    """Inside `except KeyError as t`: is `name == t.args[0]` established?"""
+
+    def __init__(self, excname):
+        self.excname = excname
+
+    def _is_arg0(self, e):
+        return isinstance(e, ast.Subscript) and \
+            isinstance(e.value, ast.Attribute) and e.value.attr == 'args' \
+            and isinstance(e.value.value, ast.Name) and \
+            e.value.value.id == self.excname and \
+            isinstance(e.slice, ast.Constant) and e.slice.value == 0
+
+    def branch(self, test, st):
+        if isinstance(test, ast.Compare) and len(test.ops) == 1 and \
+                isinstance(test.ops[0], (ast.Eq, ast.NotEq)):
+            a, b = test.left, test.comparators[0]
+            if (self._is_arg0(a) and isinstance(b, ast.Name)) or \
+                    (self._is_arg0(b) and isinstance(a, ast.Name)):
+                pos = isinstance(test.ops[0], ast.Eq)
+                return [(pos, _ES(True)), (not pos, _ES(False))]
+        return [(True, st), (False, st)]
+
+
+def rule_not_found_protocol(model):
+    """Reader and writer of the "name not defined" signal agree."""
+    a = locate(model)
+    fi = a['fi']
+    r = RuleResult('C09.R5', 'the "name is not defined" signal: the '
+                   'interpreter treats a KeyError as "undefined" only on '
+                   'paths that established that its first argument is the '
+                   'looked-up name, and the namespace raises exactly '
+                   'KeyError(<the key it was asked for>) when no source '
+                   'defines the name')
+    # ---- reader: every normal exit of the handler knows name == args[0]
+    nread = 0
+    for t in [n for n in ast.walk(a['loop']) if isinstance(n, ast.Try)]:
+        if not any(CondDomain(model, a).is_eval(x) for s in t.body
+                   for x in ast.walk(s)):
+            continue
+        for h in t.handlers:
+            if h.type is None or norm(h.type) != 'KeyError':
+                continue
+            nread += 1
+            if not h.name:
+                r.instance(fi.where, 'except KeyError', 'no test')
+                r.finding(fi.where, 'except KeyError (anonymous)',
+                          'the handler cannot tell the looked-up name from '
+                          'a KeyError raised inside the value: it does not '
+                          'bind the exception', node=h, ctx=fi)
+                continue
+            outs = Interp(_SameKey(h.name)).block(h.body, _ES())
+            bad = [o for o in outs if o.kind == NORMAL
+                   and o.state.eq is not True]
+            r.instance(fi.where, f'except KeyError as {h.name}',
+                       f'{len(outs)} exits, {len(bad)} without the test')
+            if bad:
+                r.finding(fi.where, f'except KeyError as {h.name}: falls '
+                          'through without args[0] == name',
+                          'a path through the KeyError handler treats the '
+                          'condition as undefined (false) without having '
+                          f'established that {h.name}.args[0] is the '
+                          'looked-up name: a KeyError raised inside the '
+                          'value (e.g. a bare KeyError()) silently counts '
+                          'as "false" and later conditions are evaluated',
+                          node=h, ctx=fi, path=bad[0].state.trace)
+    if nread < 1:
+        raise AnalysisError('C09.R5: KeyError handler of the condition '
+                            'lookup not found')
+    # ---- writer: TemplateDict.getitem raises KeyError(key) only
+    nwrite = 0
+    for qual in ('TemplateDict.getitem',):
+        g = model.func('_DocumentTemplate', qual)
+        key = g.params()[1] if len(g.params()) > 1 else None
+        rebound = key is None or any(
+            isinstance(x, ast.Name) and x.id == key and
+            isinstance(x.ctx, ast.Store) for x in own_nodes(g.node))
+        for x in own_nodes(g.node):
+            if not isinstance(x, ast.Raise):
+                continue
+            nwrite += 1
+            e = x.exc
+            if e is None:
+                r.instance(g.where, x, 're-raise')
+                continue
+            ok = isinstance(e, ast.Call) and isinstance(e.func, ast.Name) \
+                and e.func.id == 'KeyError' and len(e.args) >= 1 and \
+                isinstance(e.args[0], ast.Name) and e.args[0].id == key \
+                and not rebound
+            r.instance(g.where, x, 'KeyError(key)' if ok else 'OTHER')
+            if not ok:
+                r.finding(g.where, x, 'the namespace lookup raises '
+                          'something other than KeyError(<the key it was '
+                          'asked for>): the conditional interpreter '
+                          'recognises an undefined name by comparing the '
+                          'first argument of the KeyError with the name, '
+                          'so an undefined condition raises instead of '
+                          'being false', node=x, ctx=g)
+    if nwrite < 1:
+        raise AnalysisError('C09.R5: TemplateDict.getitem raises nothing')
+    return r
+
+
+def _unwrapped(model, fi, e, _depth=0):
+    """Is `e` the acquisition-unwrapped form of some object?"""
+    if isinstance(e, ast.Call):
+        f = e.func
+        if isinstance(f, ast.Name) and f.id == 'aq_base':
+            return True
+        if isinstance(f, ast.Name) and f.id == 'getattr' and \
+                len(e.args) >= 2 and isinstance(e.args[1], ast.Constant) \
+                and e.args[1].value == 'aq_base':
+            return True
+        return False
+    if isinstance(e, ast.Attribute) and e.attr == 'aq_base':
+        return True
+    if isinstance(e, ast.Name) and _depth < 3:
+        defs = model.local_defs(fi, e.id)
+        return bool(defs) and all(
+            isinstance(d, ast.AST) and _unwrapped(model, fi, d, _depth + 1)
+            for d in defs)
+    return False
+
+
+def rule_marker_probe(model):
+    r = RuleResult('C09.R6', 'the marker that selects the call signature '
+                   'of a looked-up value (isDocTemp: call with the '
+                   'namespace; otherwise call without arguments) is read '
+                   'from the acquisition-unwrapped object: through a '
+                   'wrapper the public marker of any template in the '
+                   'acquisition chain would be acquired')
+    n = 0
+    for fi in model.all_funcs():
+        for x in own_nodes(fi.node):
+            recv = None
+            if isinstance(x, ast.Call) and isinstance(x.func, ast.Name) and \
+                    x.func.id in ('getattr', 'hasattr') and \
+                    len(x.args) >= 2 and \
+                    isinstance(x.args[1], ast.Constant) and \
+                    x.args[1].value == 'isDocTemp':
+                recv = x.args[0]
+            elif isinstance(x, ast.Attribute) and x.attr == 'isDocTemp' \
+                    and isinstance(x.ctx, ast.Load):
+                recv = x.value
+            if recv is None:
+                continue
+            n += 1
+            ok = _unwrapped(model, fi, recv)
+            r.instance(fi.where, x, 'unwrapped' if ok else 'WRAPPED')
+            if not ok:
+                r.finding(fi.where, x, 'isDocTemp is probed on a value '
+                          'that may be an acquisition wrapper: a plain '
+                          'callable living below a template acquires the '
+                          'marker and is called as value(None, md) instead '
+                          'of value()', node=x, ctx=fi)
+    if n < 2:
+        raise AnalysisError(f'C09.R6: only {n} isDocTemp probes found')
+    return r
+
+
 INLINED_VIEW = True
-RULES_PLAIN = [rule_eval, rule_keyerror, rule_shapes]
+RULES_PLAIN = [rule_eval, rule_keyerror, rule_shapes,
+               rule_not_found_protocol, rule_marker_probe]
 RULES = [_inl(r_) for r_ in RULES_PLAIN] if INLINED_VIEW else RULES_PLAIN
 EXPLANATION = (
     'Path-sensitive interpretation of one iteration of the condition loop '
